@@ -106,6 +106,8 @@ def run_tlc(module, cfg_text, runcfg=None, workers=8, consumer=None, timeout=360
             th.start()
         cmd.append(module + '.tla')
         env = dict(os.environ)
+        # deep recursive operators (Emit / Infer over long texts, EvalT over deep programs) need a larger thread stack
+        env['JAVA_TOOL_OPTIONS'] = (env.get('JAVA_TOOL_OPTIONS', '') + ' -Xss256m').strip()
         env.update(env_extra or {})
         t0 = time.time()
         try:
